@@ -55,6 +55,13 @@ def derive_classes(meta, op, classes, phase, dname=""):
     if kind in ("HTFC", "HHTFC", "RPHTFC") and op in ("locatePrefix", "extractPrefix") and "crash" not in classes \
             and any("memcpy" in s for s in sites):
         cl.append("ht_memcpy_overread")
+    if kind in ("RPFC", "RPHTFC") and "fresh_object_of_load_only_kind" not in classes:
+        try:
+            b = max(2, int(meta["params"][0]))
+        except (IndexError, ValueError):
+            b = 2
+        if max(len(x) for x in meta["S"]) > 16384 and max_inbucket_lcp(meta["S"], b) >= 16384:
+            cl.append("rp_lcp_ge_16384")
     if kind == "RPHTFC" and op == "build" and "crash" in classes:
         try:
             b = max(2, int(meta["params"][0]))
@@ -133,6 +140,17 @@ def gen_cases(cfg, tier, seed):
             meta = {"kind": kind, "S": S, "params": params, "shape": shape, "phases": phases}
             meta.update(extra_meta or {})
             cases.append(Case("%s-%s-%d" % (cfg.pid, kind, si), cmds, meta))
+        # fixed extra sets of a check (kind filter, shape, S, params): witnesses of recorded findings and regression inputs
+        for xi, (xkinds, shape, S, params) in enumerate(getattr(cfg, "extra_sets", [])):
+            if kind not in xkinds:
+                continue
+            r = cfg.make_cmds(rnd, kind, S, params, tier)
+            if r is None:
+                continue
+            cmds, phases, extra_meta = r
+            meta = {"kind": kind, "S": S, "params": params, "shape": shape, "phases": phases}
+            meta.update(extra_meta or {})
+            cases.append(Case("%s-%s-x%d" % (cfg.pid, kind, xi), cmds, meta))
     return cases
 
 
